@@ -48,3 +48,70 @@ Theorem c10_break_total : forall z h t, zone_ok z = true -> int64 t ->
     /\ info_of z (zid (abs_zone z) t) = OK (dst, ab).
 Proof. exact break_refines_lemma. Qed.
 Print Assumptions c10_break_total.
+
+From CCTZ Require Import LoadCert C10Whole.
+Local Notation cos := civil_of_seconds.
+(* TOTALITY AND EXACT SATURATION FOR EVERY ACCEPTED FILE (C10Whole.v) - no zone_ok, no gaps_wide: acceptance by the loader
+   itself establishes what definedness needs.  shift_safe z is the exact boolean boundary of findings F9/F9b (the table of a
+   rule-extended zone ends after 2196-12-04T15:30:07Z and last_year_ >= 207): c10_shift_safe_exact shows it is NECESSARY and
+   sufficient, and the unconditional statement is machine-refuted on a concrete accepted file. *)
+Theorem c10_total_every_accepted_file : forall bs z,
+  load_bytes bs = OK (Some z) -> shift_safe z = true ->
+  (forall hint t, int64 t -> exists r, break_time z hint t = OK r) /\
+  (forall hint cs, valid_fields cs = true -> int64 (fy cs) -> exists r, make_time z hint cs = OK r) /\
+  (forall hint cs, valid_fields cs = true -> int64 (fy cs) -> exists r, convert_cs z hint cs = OK r) /\
+  (forall t, int64 t -> exists r, next_transition z t = OK r) /\
+  (forall t, int64 t -> exists r, prev_transition z t = OK r).
+Proof. exact C10Whole.c10_total_every_accepted_file. Qed.
+Print Assumptions c10_total_every_accepted_file.
+Theorem c10_shift_safe_exact : forall bs z, load_bytes bs = OK (Some z) ->
+  (shift_safe z = true <->
+   (forall hint t, int64 t -> exists r, break_time z hint t = OK r) /\
+   (forall hint cs, valid_fields cs = true -> int64 (fy cs) -> exists r, make_time z hint cs = OK r)).
+Proof. exact C10Whole.c10_shift_safe_exact. Qed.
+Print Assumptions c10_shift_safe_exact.
+Theorem c10_convert_saturates_table : forall bs z h cs, load_bytes bs = OK (Some z) ->
+  valid_fields cs = true -> int64 (fy cs) ->
+  (z_extended z = false \/ fy cs <= z_last_year z) ->
+  let v := zconvert (abs_zone z) (sec_of cs) in
+  convert_cs z h cs = OK (clamp' v) /\
+  (max64 <= v -> convert_cs z h cs = OK max64) /\
+  (v <= min64 -> convert_cs z h cs = OK min64) /\
+  (int64 v -> convert_cs z h cs = OK v).
+Proof. exact C10Whole.c10_convert_saturates_table. Qed.
+Print Assumptions c10_convert_saturates_table.
+Theorem c10_extreme_civil_seconds : forall bs z h, load_bytes bs = OK (Some z) -> shift_safe z = true ->
+  convert_cs z h civil_max64 = OK max64 /\ convert_cs z h civil_min64 = OK min64 /\
+  (forall cs, valid_fields cs = true -> int64 (fy cs) -> huge_year <= fy cs -> convert_cs z h cs = OK max64) /\
+  (forall cs, valid_fields cs = true -> int64 (fy cs) -> fy cs <= tiny_year -> convert_cs z h cs = OK min64).
+Proof. exact C10Whole.c10_extreme_civil_seconds. Qed.
+Print Assumptions c10_extreme_civil_seconds.
+Theorem c10_last_civil_second_exact : forall bs z h l, load_bytes bs = OK (Some z) ->
+  z_extended z = false -> last_opt (z_trans z) = Some l ->
+  let off := off_of z (tr_type l) in
+  let cs := cos (max64 + off) in
+  (exists ty, nth_res (z_types z) (tr_type l) = OK ty /\ tt_cmax ty = cs) /\
+  (exists h' dst ab, break_time z h max64 = OK (mkAL cs off dst ab, h')) /\
+  zconvert (abs_zone z) (sec_of cs) = max64 /\
+  convert_cs z h cs = OK max64 /\
+  zconvert (abs_zone z) (sec_of (cos (max64 + off + 1))) = max64 + 1 /\
+  convert_cs z h (cos (max64 + off + 1)) = OK max64.
+Proof. exact C10Whole.c10_last_civil_second_exact. Qed.
+Print Assumptions c10_last_civil_second_exact.
+Theorem c10_total_fixed : forall off, -86400 <= off <= 86400 ->
+  exists z, reset_to_builtin_utc off = OK z /\ z_extended z = false /\ shift_safe z = true /\
+    (forall h t, int64 t -> exists h',
+       break_time z h t = OK (mkAL (cos (t + off)) off false (fixed_abbr_spec off), h')) /\
+    (forall h cs, valid_fields cs = true -> int64 (fy cs) -> exists h',
+       make_time z h cs = OK (make_unique (clamp' (sec_of cs - off)), h')) /\
+    (forall h cs, valid_fields cs = true -> int64 (fy cs) ->
+       convert_cs z h cs = OK (clamp' (sec_of cs - off))) /\
+    (forall t, next_transition z t = OK None) /\
+    (forall t, prev_transition z t = OK None).
+Proof. exact C10Whole.c10_total_fixed. Qed.
+Print Assumptions c10_total_fixed.
+Theorem c10_total_every_accepted_file_unconditional_refuted :
+  ~ (forall bs z, load_bytes bs = OK (Some z) ->
+       forall hint t, int64 t -> exists r, break_time z hint t = OK r).
+Proof. exact C10Whole.c10_total_every_accepted_file_unconditional_refuted. Qed.
+Print Assumptions c10_total_every_accepted_file_unconditional_refuted.
